@@ -5,7 +5,7 @@ package main
 //
 //	uri.go, uripost.go, raw.go, jsonline.go   `if d.config.Limit != 0 && d.ammoNum >= d.config.Limit { return nil, ErrAmmoLimit }` first
 //	uri.go      Scan   the block under `if !d.scanner.Scan() { if d.scanner.Err() == nil { … } }`
-//	raw.go      Scan   the block under `if err == io.EOF { … }`
+//	raw.go      Scan   the block under `if err == io.EOF { … }` / `if err == io.EOF && len(data) == 0 { … }` (conjuncts in any order)
 //	uripost.go  Scan   what follows the inner `for { … }` in the body of the outer loop
 //	jsonline.go Scan   the check at the top of the `for` body and what follows the `if err != nil { … } else { … }` of the decode
 //
@@ -187,6 +187,74 @@ func c14hdrFindIf(list []ast.Stmt, p *packages.Package, cond string) *ast.IfStmt
 	return found
 }
 
+// c14hdrFindEofIf finds the `if` of raw.go's Scan that ends a pass: its condition is a conjunction (any order, any
+// parentheses) of exactly one `err == io.EOF` (either operand order, or errors.Is(err, io.EOF)) and any number of
+// "nothing was read" conjuncts `len(<v>) == 0` / `<v> == ""` over one identifier. Returns the statement and whether
+// a nothing-read conjunct is present.
+func c14hdrFindEofIf(list []ast.Stmt, p *packages.Package) (*ast.IfStmt, bool) {
+	var conj func(e ast.Expr) []ast.Expr
+	conj = func(e ast.Expr) []ast.Expr {
+		switch v := e.(type) {
+		case *ast.ParenExpr:
+			return conj(v.X)
+		case *ast.BinaryExpr:
+			if v.Op == token.LAND {
+				return append(conj(v.X), conj(v.Y)...)
+			}
+		}
+		return []ast.Expr{e}
+	}
+	isEOF := func(e ast.Expr) bool {
+		switch c14hdrSrcText(p, e) {
+		case "err == io.EOF", "io.EOF == err", "errors.Is(err, io.EOF)":
+			return true
+		}
+		return false
+	}
+	isNothing := func(e ast.Expr) bool {
+		be, ok := e.(*ast.BinaryExpr)
+		if !ok || be.Op != token.EQL {
+			return false
+		}
+		x, y := be.X, be.Y
+		if c14hdrSrcText(p, x) == "0" || c14hdrSrcText(p, x) == `""` {
+			x, y = y, x
+		}
+		if call, ok := x.(*ast.CallExpr); ok && c14hdrSrcText(p, call.Fun) == "len" && len(call.Args) == 1 {
+			_, isID := call.Args[0].(*ast.Ident)
+			return isID && c14hdrSrcText(p, y) == "0"
+		}
+		_, isID := x.(*ast.Ident)
+		return isID && c14hdrSrcText(p, y) == `""`
+	}
+	var found *ast.IfStmt
+	nothing := false
+	for _, s := range list {
+		ast.Inspect(s, func(n ast.Node) bool {
+			ifs, ok := n.(*ast.IfStmt)
+			if !ok || found != nil || ifs.Init != nil {
+				return found == nil
+			}
+			eofs, noth, other := 0, 0, 0
+			for _, c := range conj(ifs.Cond) {
+				switch {
+				case isEOF(c):
+					eofs++
+				case isNothing(c):
+					noth++
+				default:
+					other++
+				}
+			}
+			if eofs == 1 && other == 0 {
+				found, nothing = ifs, noth > 0
+			}
+			return found == nil
+		})
+	}
+	return found, nothing
+}
+
 func c14hdrScan(t *tr, p *packages.Package) string {
 	var b strings.Builder
 	emit := func(prefix, file, where string, x *c14hdrScanCtx, limit, body string) {
@@ -226,11 +294,14 @@ func c14hdrScan(t *tr, p *packages.Package) string {
 			t.errs = append(t.errs, "c14hdr: rawDecoder.Scan not found")
 		} else {
 			lim := x.limitCheck(fd)
-			eof := c14hdrFindIf(fd.Body.List, p, "err == io.EOF")
+			eof, nothingRead := c14hdrFindEofIf(fd.Body.List, p)
 			if eof == nil {
-				x.fail(fd, "`if err == io.EOF { … }` not found")
+				x.fail(fd, "`if err == io.EOF [&& len(data) == 0] { … }` not found")
 			} else {
-				emit("raw", "components/providers/http/decoders/raw.go", "the block under `if err == io.EOF {`", x, lim, x.eofBlock(eof.Body.List))
+				emit("raw", "components/providers/http/decoders/raw.go", "the block under `if "+c14hdrSrcText(p, eof.Cond)+" {`", x, lim, x.eofBlock(eof.Body.List))
+				if x.ok {
+					fmt.Fprintf(&b, "/-- regenerated from raw.go Scan: the end-of-file block is entered only when ReadString returned io.EOF AND no data (a last line without its newline is still decoded); false = on io.EOF alone -/\ndef rawEofNeedsNoData : Bool := %v\n\n", nothingRead)
+				}
 			}
 		}
 	}
